@@ -575,7 +575,7 @@ class EspiritCalib(sp.app.App):
         xp = self.device.xp
         with self.device:
             # Normalize phase with respect to first channel
-            mps = self.mps.T[0]
+            mps = self.mps.T[0].copy()
             mps *= xp.conj(mps[0] / xp.abs(mps[0]))
 
             # Crop maps by thresholding eigenvalue
